@@ -484,8 +484,13 @@ def increasing : List Bytes → Bool
 def memberOk (m : Member) : Bool :=
   !m.name.contains 0 && decide (m.payload.length < 2147483648) && decide (m.size < 4294967296) && decide (m.comp < 65536)
 
+/-- every block starts at an offset that fits the 32-bit index field -/
+def offsetsOk : Nat → List Member → Bool
+  | _, [] => true
+  | doff, m :: ms => decide (doff < 4294967296) && offsetsOk (doff + blockLen m) ms
+
 def Desc.wf (d : Desc) : Bool :=
-  d.members.all memberOk && decide (headerLen d < 2147483648) && decide (totalLen d < 4294967296)
+  d.members.all memberOk && decide (headerLen d < 2147483648) && offsetsOk (headerLen d) d.members
   && (decide (d.slack < 14) || decide (0 < d.unused))
 
 def Desc.strict (d : Desc) : Bool :=
